@@ -214,9 +214,15 @@ class Compiler:
             try:
                 return get_as_int(state, "link address", state["insn"], address, bitness=16, unsigned=False)
             except DeferredCycle:
+                try:
+                    equation = repr(address.resolve(state))
+                except DeferredCycle:
+                    # The expression cannot even be displayed symbolically,
+                    # e.g. when it divides something that contains the base
+                    equation = "an expression that contains LA itself"
                 reports.error(
                     "recursive-definition",
-                    (state["insn"].ctx_start, state["insn"].ctx_end, f"The link base is mathematically equal to {address.resolve(state)!r},\nwhere LA denotes link base. In other words, the link base depends on itself,\nand thus cannot be determined.")
+                    (state["insn"].ctx_start, state["insn"].ctx_end, f"The link base is mathematically equal to {equation},\nwhere LA denotes link base. In other words, the link base depends on itself,\nand thus cannot be determined.")
                 )
                 return 0
 
